@@ -649,7 +649,7 @@ func assignFields(t *rapid.T, p *Prod, e *Expr, pi int) {
 			}
 			return
 		case KPars:
-			k := rapid.SampledFrom([]FKind{FPars, FParsV, FParss}).Draw(t, "pk")
+			k := rapid.SampledFrom([]FKind{FPars, FParsV, FParss, FCust, FCusts}).Draw(t, "pk")
 			n := len(p.Fields)
 			if n > 0 && p.Fields[n-1].Kind == k && rapid.Bool().Draw(t, "reuse") {
 				e.Field = n - 1
